@@ -638,6 +638,13 @@ func (r *rewriter) reinitBody() string {
 				if u, ok := v.(*ast.UnaryExpr); ok && u.Op == token.AND {
 					lit = ast.Unparen(u.X)
 				}
+				if name == "Stdout" {
+					// the console stream seam: evaluate its initialiser again for every case, whatever it is
+					if str := r.exprString(v); str != "" {
+						fmt.Fprintf(&out, "\t%s = %s\n", name, str)
+					}
+					continue
+				}
 				if call, isCall := v.(*ast.CallExpr); isCall {
 					// a package-level channel is run-time state (a free list, a queue): make it anew
 					if id, ok := call.Fun.(*ast.Ident); ok && id.Name == "make" && len(call.Args) >= 1 {
@@ -1311,9 +1318,6 @@ func writeReset(pkg *packages.Package, dst string, reinitFuncs []string) {
 	}
 	if has("frameCache") {
 		add("frameCache", "frameCache.Clear()")
-	}
-	if has("Stdout") {
-		add("Stdout", "Stdout = simos.Stdout")
 	}
 	for _, n := range []string{"TimeNow", "StringFromContext", "FieldsFromContext"} {
 		if has(n) {
